@@ -34,6 +34,9 @@ Start == /\ ~running /\ gen < MaxRuns
          /\ running' = TRUE /\ halt' = 0 /\ gen' = gen + 1 /\ left' = Steps
          /\ watchers' = watchers \cup {[g |-> gen + 1, ctx |-> gen + 1]}
          /\ UNCHANGED <<ctxDone, outcomes, clones>>
+\* start() on a VM that is running is refused ("vm is already running") and changes NOTHING - in particular it
+\* neither clears `running` nor ends the watcher of the run in progress.  A stuttering step: [Next]_vars admits it.
+RefusedStart == running /\ UNCHANGED vars
 Step == /\ running /\ halt = 0 /\ left > 0
         /\ left' = left - 1
         /\ UNCHANGED <<running, halt, gen, watchers, ctxDone, outcomes, clones>>
